@@ -41,6 +41,9 @@ func (w *rrWorld) applyCoarse(op *rrOp, where string) {
 			if op.kind == "serve" && (op.invoked || op.status < 500) {
 				r.Fail("no-error-response", "%s: empty/all-zero pool: handler invoked=%v status=%d", where, op.invoked, op.status)
 			}
+			if op.kind == "serve" && w.ownErrHandler && op.ownMarks != 1 {
+				r.Fail("error-handler-bypassed", "%s: empty/all-zero pool (status %d): the configured error handler answered %d times", where, op.status, op.ownMarks)
+			}
 			return
 		}
 		if op.err {
